@@ -19,6 +19,7 @@
 #include <sys/time.h>
 #include <sys/wait.h>
 #include <unistd.h>
+#include <time.h>
 #include <algorithm>
 #include <functional>
 
@@ -27,7 +28,7 @@ static vx::Shard S;
 
 enum { MAXN = 9, MAXH = MAXN * (MAXN + 1) / 2 };
 static const double SENT = -7.77777e77;     // pre-fill of derivs/hes: "slot was never written"
-static int HORIZON_S = 10;                   // CPU seconds per single binding call
+static long HORIZON_MS = 50;                 // CPU milliseconds per single binding call (see check.py: two phases)
 static const double NaN = std::nan("");
 
 // ------------------------------------------------------------------ registration (AmplExports)
@@ -51,6 +52,7 @@ struct Res {
 struct Shm {                 // case in flight, visible to the parent after a crash
   volatile long long tuple; volatile int mode; volatile int cfg; volatile int n; volatile int stage;
   double x[MAXN]; volatile long long calls;
+  volatile int ip[MAXN]; volatile int probe_pos;      // integer-only positions found by the probe child
 };
 static Shm* SHM;
 static long long g_calls = 0;
@@ -64,7 +66,10 @@ static void call(const Fn& f, int n, const double* x, int mode, const char* dig,
   al.n = al.nr = n; al.ra = ra;
   al.derivs = mode >= 1 ? r.d : nullptr; al.hes = mode >= 2 ? r.h : nullptr;
   al.dig = dig ? dg : nullptr; al.funcinfo = f.info; al.AE = &g_ae; al.TMI = &g_tmi;
-  struct itimerval it = {{0, 0}, {HORIZON_S, 0}}, off = {{0, 0}, {0, 0}};
+  struct itimerval it = {{0, 0}, {HORIZON_MS / 1000, (HORIZON_MS % 1000) * 1000}}, off = {{0, 0}, {0, 0}};
+  static const bool slowdiag = getenv("VERIF_C16_SLOW") != nullptr;     // diagnostics only (stderr)
+  struct timespec t0, t1;
+  if (slowdiag) clock_gettime(CLOCK_PROCESS_CPUTIME_ID, &t0);
   setitimer(ITIMER_VIRTUAL, &it, nullptr);
   if (f.type == FUNCADD_STRING_VALUED) {
     const char* s = ((const char* (*)(arglist*))f.f)(&al);
@@ -76,6 +81,15 @@ static void call(const Fn& f, int n, const double* x, int mode, const char* dig,
   }
   setitimer(ITIMER_VIRTUAL, &off, nullptr);
   ++g_calls; SHM->calls = g_calls;
+  if (slowdiag) {
+    clock_gettime(CLOCK_PROCESS_CPUTIME_ID, &t1);
+    double dt = (t1.tv_sec - t0.tv_sec) + (t1.tv_nsec - t0.tv_nsec) * 1e-9;
+    if (dt > 0.05) {
+      std::fprintf(stderr, "SLOW %s %.3f mode=%d (", f.name.c_str(), dt, mode);
+      for (int i = 0; i < n; ++i) std::fprintf(stderr, "%s%g", i ? "," : "", x[i]);
+      std::fprintf(stderr, ")\n");
+    }
+  }
   r.err = al.Errmsg != nullptr; r.kind = 0;
   if (r.err) { r.msg = al.Errmsg; r.kind = al.Errmsg[0] == '\'' ? 'd' : al.Errmsg[0] == '"' ? 'h' : 'v'; }
   for (void* p : g_tmem) free(p);
@@ -200,8 +214,16 @@ static Verdict verdict(double a, const Dir& D, int c, std::string* est) {
 // ------------------------------------------------------------------ lattices and tuple spaces
 static const double LAT[] = {-2.5, -1, -0.5, -1e-8, 0, 1e-8, 0.5, 1, 2, 2.5, 10, 1e8, NAN};
 static const int NLAT = sizeof LAT / sizeof *LAT;
-static const double LAT_RED[] = {-2.5, -1, -1e-8, 0, 0.5, 1, 2.5, 1e8, NAN};     // quick tier, arity 3
-static const int NLAT_RED = sizeof LAT_RED / sizeof *LAT_RED;
+// thorough tier, arity <= 2: LAT plus neighbourhoods of +-1 and 0 and more magnitudes
+static const double EXT[] = {-10, -2.5, -1.5, -1.1, -1, -0.9, -0.5, -1e-3, -1e-8, 0, 1e-8, 1e-3, 0.1, 0.5, 0.9, 1, 1.1,
+                             1.5, 2, 2.5, 3, 5, 10, 100, 1e4, 1e8, NAN};
+static const int NEXT = sizeof EXT / sizeof *EXT;
+// thorough tier, arity >= 5: full product over this core (in addition to the pairwise array over LAT)
+static const double CORE_REAL[] = {-1, 0, 0.5, 2, NAN};
+static const double CORE_INT[] = {-1, 0, 1, 2, 5};
+// At integer-only positions the huge member 1e8 is replaced by BIG_INT: GSL's recurrences are O(n), a single call
+// with n = 1e8 costs 0.6-2.3 CPU seconds (measured), which no exhaustive tuple enumeration can afford.
+static const double BIG_INT = 1000;
 
 struct Space {                       // tuple space of one (function, arity)
   int n; std::vector<std::vector<double>> vals;   // per position
@@ -234,22 +256,6 @@ static bool check_pairwise(const Space& sp) {
       if (!found) return false;
     }
   return true;
-}
-
-// which positions only accept integers: a non-integer there (all other positions small integers)
-// is always rejected with "can't be represented as (unsigned )int"
-static std::vector<bool> probe_int_positions(const Fn& f, int n) {
-  std::vector<bool> ip(n, false);
-  for (int i = 0; i < n; ++i) {
-    bool all = true;
-    for (double o : {0.0, 1.0, 2.0}) for (double v : {0.5, 2.5}) {
-      double x[MAXN]; for (int k = 0; k < n; ++k) x[k] = o;
-      x[i] = v; Res r; call(f, n, x, 0, nullptr, r);
-      if (!(r.err && r.msg.find("can't be represented as") != std::string::npos)) all = false;
-    }
-    ip[i] = all;
-  }
-  return ip;
 }
 
 // ------------------------------------------------------------------ per-function exploration
@@ -375,16 +381,28 @@ static void run_tuple(const Fn& f, int n, const std::vector<bool>& ip, const dou
   }
 }
 
-static Space make_space(int n, const std::vector<bool>& ip, bool thorough) {
-  Space sp; sp.n = n;
-  bool reduced = !thorough && n == 3;
-  for (int i = 0; i < n; ++i) {
-    std::vector<double> v(reduced ? LAT_RED : LAT, reduced ? LAT_RED + NLAT_RED : LAT + NLAT);
-    if (ip[i]) v.insert(v.end() - 1, 5.0);          // small integers {-1,0,1,2,5}: 5 is the only one missing
-    sp.vals.push_back(v);
+static std::vector<double> position_values(const double* lat, int nlat, bool is_int) {
+  std::vector<double> v(lat, lat + nlat);
+  if (is_int) {
+    for (double& d : v) if (d == 1e8) d = BIG_INT;
+    if (std::find(v.begin(), v.end(), 5.0) == v.end()) v.insert(v.end() - 1, 5.0);   // small integers {-1,0,1,2,5}
   }
-  sp.pairwise = n >= 4;
-  return sp;
+  return v;
+}
+// the tuple spaces of one (function, arity); tuple indices run through them consecutively
+static std::vector<Space> make_spaces(int n, const std::vector<bool>& ip, bool thorough) {
+  std::vector<Space> out;
+  Space sp; sp.n = n;
+  bool ext = thorough && n <= 2;
+  for (int i = 0; i < n; ++i) sp.vals.push_back(position_values(ext ? EXT : LAT, ext ? NEXT : NLAT, ip[i]));
+  sp.pairwise = n >= (thorough ? 5 : 4);
+  out.push_back(sp);
+  if (thorough && n >= 5) {
+    Space c; c.n = n;
+    for (int i = 0; i < n; ++i) c.vals.push_back(ip[i] ? std::vector<double>(CORE_INT, CORE_INT + 5) : std::vector<double>(CORE_REAL, CORE_REAL + 5));
+    out.push_back(c);
+  }
+  return out;
 }
 static std::vector<int> arities(const Fn& f) {
   std::vector<int> a;
@@ -417,24 +435,31 @@ static void emit_child(const Fn& f, int n, const std::vector<bool>& ip, const FS
   std::fflush(stdout);
 }
 
+static std::vector<bool> shm_ip(int n) { std::vector<bool> ip(n); for (int i = 0; i < n; ++i) ip[i] = SHM->ip[i] != 0; return ip; }
+
 // child body: tuples t >= start of function k that belong to this shard
-static void child_run(size_t k, int n, bool thorough, long long start, bool all_mine) {
+static void child_run(size_t k, int n, bool thorough, long long start) {
   const Fn& f = FNS[k];
   g_random = f.type == FUNCADD_RANDOM_VALUED;
-  SHM->tuple = -1; SHM->n = n; SHM->stage = 0;
-  std::vector<bool> ip = n ? probe_int_positions(f, n) : std::vector<bool>();
-  Space sp = make_space(n, ip, thorough);
+  std::vector<bool> ip = shm_ip(n);
+  std::vector<Space> sps = make_spaces(n, ip, thorough);
   FStat st; double x[MAXN];
-  long long N = n == 0 ? 1 : sp.size();
-  for (long long t = start; t < N; ++t) {
-    if (!all_mine && !S.mine(t + (long long)k)) continue;
-    if (n) sp.tuple(t, x);
-    for (int i = 0; i < n; ++i) SHM->x[i] = x[i];
-    SHM->tuple = t;
-    run_tuple(f, n, ip, x, st);
-    ++st.tuples;
-    if (st.tuples == 7 && (k % 40) == 3)
-      R.sample("{\"fn\":\"" + f.name + "\",\"x\":" + point_json(x, n) + ",\"modes\":[\"value\",\"derivs\",\"hes\"]}");
+  long long N = 0, base = 0;
+  for (auto& sp : sps) N += n == 0 ? 1 : sp.size();
+  for (auto& sp : sps) {
+    long long sz = n == 0 ? 1 : sp.size();
+    for (long long u = std::max(0LL, start - base); u < sz; ++u) {
+      long long t = base + u;
+      if (!S.mine(t + (long long)k)) continue;
+      if (n) sp.tuple(u, x);
+      for (int i = 0; i < n; ++i) SHM->x[i] = x[i];
+      SHM->tuple = t;
+      run_tuple(f, n, ip, x, st);
+      ++st.tuples;
+      if (st.tuples == 7 && (k % 40) == 3)
+        R.sample("{\"fn\":\"" + f.name + "\",\"x\":" + point_json(x, n) + ",\"modes\":[\"value\",\"derivs\",\"hes\"]}");
+    }
+    base += sz;
   }
   emit_child(f, n, ip, st, N);
 }
@@ -444,46 +469,91 @@ static const char* signame(int s) {
     case SIGBUS: return "SIGBUS"; case SIGILL: return "SIGILL"; case SIGVTALRM: return "SIGVTALRM"; default: return "signal"; }
 }
 
-// parent: one forked child per function; a dead child is an observation and the exploration resumes
-static void explore_function(size_t k, int n, bool thorough, long long start0, long long only_tuple) {
-  long long start = start0;
-  for (int restarts = 0;; ++restarts) {
+// probe child: which positions are integer-only.  A probe call that dies or exceeds the horizon means the
+// non-integer was not rejected up front, i.e. the position is not integer-only.
+static void probe_function(size_t k, int n) {
+  for (int i = 0; i < MAXN; ++i) SHM->ip[i] = 0;
+  for (int from = 0; from < n;) {
     std::fflush(stdout);
     pid_t pid = fork();
     if (pid < 0) { R.broken("fork failed"); return; }
     if (pid == 0) {
-      R = vx::Report();
-      if (only_tuple >= 0) {     // replay of a single tuple
-        const Fn& f = FNS[k]; g_random = f.type == FUNCADD_RANDOM_VALUED;
-        std::vector<bool> ip = n ? probe_int_positions(f, n) : std::vector<bool>();
-        FStat st; SHM->tuple = 0; SHM->n = n;
-        run_tuple(f, n, ip, (const double*)SHM->x, st); st.tuples = 1;
-        emit_child(f, n, ip, st, 1);
-      } else child_run(k, n, thorough, start, false);
+      const Fn& f = FNS[k];
+      for (int i = from; i < n; ++i) {
+        SHM->probe_pos = i;
+        bool all = true;
+        for (double o : {0.0, 1.0, 2.0}) for (double v : {0.5, 2.5}) {
+          double x[MAXN]; for (int j = 0; j < n; ++j) x[j] = o;
+          x[i] = v; Res r; call(f, n, x, 0, nullptr, r);
+          if (!(r.err && r.msg.find("can't be represented as") != std::string::npos)) { all = false; break; }
+        }
+        SHM->ip[i] = all;
+      }
       _exit(0);
     }
     int status = 0;
     while (waitpid(pid, &status, 0) < 0) {}
-    if (getenv("VERIF_C16_TIMING")) {     // diagnostics only (stderr): cumulative CPU seconds of children so far
+    if (WIFEXITED(status) && WEXITSTATUS(status) == 0) return;
+    SHM->ip[SHM->probe_pos] = 0;
+    from = SHM->probe_pos + 1;
+    R.stat("probe_calls_not_returning");
+  }
+}
+
+// parent: one forked child per function; a dead child is an observation and the exploration resumes.
+// A call exceeding the CPU horizon is reported as a `slow` record (sharded pass, short horizon: check.py
+// re-runs the first such tuples of each function with the long horizon) or as a violation (--one).
+static void explore_function(size_t k, int n, bool thorough, bool single) {
+  const Fn& f = FNS[k];
+  double keep[MAXN]; for (int i = 0; i < MAXN; ++i) keep[i] = SHM->x[i];
+  probe_function(k, n);
+  long long start = 0;
+  for (int restarts = 0;; ++restarts) {
+    std::fflush(stdout);
+    SHM->tuple = -1; SHM->n = n; SHM->stage = 0;
+    pid_t pid = fork();
+    if (pid < 0) { R.broken("fork failed"); return; }
+    if (pid == 0) {
+      R = vx::Report();
+      if (single) {     // replay of a single tuple
+        g_random = f.type == FUNCADD_RANDOM_VALUED;
+        std::vector<bool> ip = shm_ip(n);
+        FStat st; SHM->tuple = 0;
+        for (int i = 0; i < n; ++i) SHM->x[i] = keep[i];
+        run_tuple(f, n, ip, keep, st); st.tuples = 1;
+        emit_child(f, n, ip, st, 1);
+      } else child_run(k, n, thorough, start);
+      _exit(0);
+    }
+    int status = 0;
+    while (waitpid(pid, &status, 0) < 0) {}
+    if (getenv("VERIF_C16_TIMING")) {     // diagnostics only (stderr): CPU seconds of this child
       struct rusage ru; getrusage(RUSAGE_CHILDREN, &ru);
       static double last = 0; double now = ru.ru_utime.tv_sec + ru.ru_utime.tv_usec * 1e-6;
-      std::fprintf(stderr, "TIMING %s n=%d cpu=%.3f calls=%lld\n", FNS[k].name.c_str(), n, now - last, (long long)SHM->calls);
+      std::fprintf(stderr, "TIMING %s n=%d cpu=%.3f calls=%lld\n", f.name.c_str(), n, now - last, (long long)SHM->calls);
       last = now;
     }
     if (WIFEXITED(status) && WEXITSTATUS(status) == 0) return;
-    const Fn& f = FNS[k];
     long long t = SHM->tuple;
     double x[MAXN]; for (int i = 0; i < n; ++i) x[i] = SHM->x[i];
     std::string how = WIFSIGNALED(status) ? signame(WTERMSIG(status)) : "exit status " + std::to_string(WEXITSTATUS(status));
     std::string ctx = std::string("\"mode\":\"") + MODE[SHM->mode % 3] + "\",\"dig_cfg\":" + std::to_string(SHM->cfg) +
                       ",\"stage\":" + std::to_string(SHM->stage) + ",\"how\":\"" + how + "\"";
     if (t < 0) { R.broken("child for " + f.name + " died before the first tuple: " + how); return; }
-    if (WIFSIGNALED(status) && WTERMSIG(status) == SIGVTALRM)
-      viol(f, "no return within " + std::to_string(HORIZON_S) + "s CPU", x, n, ctx);
-    else
+    bool timeout = WIFSIGNALED(status) && WTERMSIG(status) == SIGVTALRM;
+    if (timeout && !single) {
+      std::printf("{\"type\":\"slow\",\"fn\":\"%s\",\"n\":%d,\"t\":%lld,\"point\":\"%s\",\"replay\":%s}\n",
+                  f.name.c_str(), n, t, point(x, n).c_str(), replay_json(f, x, n).c_str());
+      R.stat("tuples_exceeding_short_horizon");
+    } else if (timeout) {
+      char hs[32]; std::snprintf(hs, sizeof hs, "%gs", HORIZON_MS / 1000.0);
+      viol(f, std::string("no return within ") + hs + " CPU", x, n, ctx);
+    } else {
       viol(f, "abnormal termination (" + how + ")", x, n, ctx);
+    }
     R.stat("child_restarts");
-    if (only_tuple >= 0 || restarts > 200) { if (restarts > 200) R.broken("too many restarts for " + f.name); return; }
+    if (single) return;
+    if (restarts > 100000) { R.broken("too many restarts for " + f.name); return; }
     start = t + 1;
   }
 }
@@ -516,9 +586,7 @@ static bool selftest(std::string* why) {
   }
   // covering construction
   Space sp; sp.n = 9; sp.pairwise = true;
-  for (int i = 0; i < 9; ++i) {
-    std::vector<double> v(LAT, LAT + NLAT); if (i % 2) v.insert(v.end() - 1, 5.0); sp.vals.push_back(v);
-  }
+  for (int i = 0; i < 9; ++i) sp.vals.push_back(position_values(LAT, NLAT, i % 2));
   if (!check_pairwise(sp)) { *why = "pairwise covering array incomplete"; return false; }
   return true;
 }
@@ -526,7 +594,7 @@ static bool selftest(std::string* why) {
 int main(int argc, char** argv) {
   S.parse(argc, argv);
   bool thorough = vx::has_flag(argc, argv, "--thorough");
-  if (const char* h = vx::arg_value(argc, argv, "--horizon")) HORIZON_S = std::atoi(h);
+  if (const char* h = vx::arg_value(argc, argv, "--horizon-ms")) HORIZON_MS = std::atol(h);
   SHM = (Shm*)mmap(nullptr, sizeof(Shm), PROT_READ | PROT_WRITE, MAP_SHARED | MAP_ANONYMOUS, -1, 0);
   if (SHM == MAP_FAILED) { R.broken("mmap failed"); R.done(); return 0; }
   g_ae.StdErr = stderr; g_ae.Addfunc = AddF; g_ae.ASLdate = 20111028; g_ae.SnprintF = snprintf;
@@ -543,7 +611,7 @@ int main(int argc, char** argv) {
     int a0 = 0; for (int a = 1; a < argc; ++a) if (!std::strcmp(argv[a], "--one")) a0 = a + 2;
     int n = argc - a0;
     for (int i = 0; i < n; ++i) SHM->x[i] = !std::strcmp(argv[a0 + i], "nan") ? NaN : std::strtod(argv[a0 + i], nullptr);
-    explore_function(k, n, thorough, 0, 0);
+    explore_function(k, n, thorough, true);
     R.done(); return 0;
   }
   if (S.i == 0) {
@@ -552,11 +620,13 @@ int main(int argc, char** argv) {
     R.stat("selftest_cases", 12);
   }
   std::set<std::string> names;
+  const char* only = vx::arg_value(argc, argv, "--only");      // diagnostics: restrict to one function
   for (size_t k = 0; k < FNS.size(); ++k) {
+    if (only && FNS[k].name != only) continue;
     if (!names.insert(FNS[k].name).second) R.broken("duplicate registration " + FNS[k].name);
     for (int n : arities(FNS[k])) {
       if (n > MAXN) { R.broken("arity beyond harness limit: " + FNS[k].name); continue; }
-      explore_function(k, n, thorough, 0, -1);
+      explore_function(k, n, thorough, false);
     }
   }
   if (S.i == 0) R.stat("functions_registered", (long long)FNS.size());
